@@ -1713,4 +1713,448 @@ theorem entry_glue' (fl : Flags) (w : World) (isGz : GzPred) (scan : MScan) (nam
     cases gzText fl scan data <;> rfl
   · intro h R tasks pre app
     simp [fromFile, h, finish]
+
+/-! ### Phase 4: the chunked member scan as written, the shape test -/
+
+theorem toMScan_eof {z : ZScan} {b : Bytes} {p : Bytes} {n : Nat} (h : z b = .eof p n) : toMScan z b = some (p, n) := by
+  simp [toMScan, h]
+
+theorem toMScan_more {z : ZScan} {b : Bytes} (h : z b = .more) : toMScan z b = none := by
+  simp [toMScan, h]
+
+theorem ZLaws.prefix_feed {z : ZScan} (hz : ZLaws z) {d p : Bytes} {n : Nat} (h : z d = .eof p n) (k : Nat) :
+    z (d.take k) = .more ∨ z (d.take k) = .eof p n := by
+  by_cases hk : k < n
+  · exact Or.inl (hz.eof_more d p n h k hk)
+  · right
+    have h1 : (d.take k).take n = d.take n := by rw [List.take_take]; congr 1; omega
+    have h2 : d.take k = d.take n ++ (d.take k).drop n := by rw [← h1, List.take_append_drop]
+    rw [h2]; exact hz.eof_ext d p n h _
+
+theorem ZLaws.eof_step {z : ZScan} (hz : ZLaws z) (data : Bytes) (good tell : Nat) (p : Bytes) (n : Nat)
+    (htl : tell ≤ data.length) (hg : good ≤ tell)
+    (h : z ((data.drop good).take (tell - good)) = .eof p n) :
+    0 < n ∧ good + n ≤ tell ∧ tell - (((data.drop good).take (tell - good)).drop n).length = good + n ∧
+      z (data.drop good) = .eof p n := by
+  obtain ⟨hn0, hnl⟩ := hz.eof_pos _ _ _ h
+  have hlen : ((data.drop good).take (tell - good)).length = tell - good := by
+    rw [List.length_take, List.length_drop]; omega
+  rw [hlen] at hnl
+  refine ⟨hn0, by omega, ?_, ?_⟩
+  · rw [List.length_drop, hlen]; omega
+  · have h1 := hz.eof_ext _ p n h
+      (((data.drop good).take (tell - good)).drop n ++ (data.drop good).drop (tell - good))
+    rwa [← List.append_assoc, List.take_append_drop, List.take_append_drop] at h1
+
+theorem chunk_facts (c : Nat) (data : Bytes) (pos : Nat) (h : ¬ ((data.drop pos).take c).isEmpty = true) :
+    0 < ((data.drop pos).take c).length ∧ pos + ((data.drop pos).take c).length ≤ data.length := by
+  have h2 : 0 < ((data.drop pos).take c).length := List.length_pos_iff.mpr (fun e => h (by rw [e]; rfl))
+  have h1 : ((data.drop pos).take c).length ≤ data.length - pos := by
+    rw [List.length_take, List.length_drop]; exact Nat.min_le_right _ _
+  exact ⟨h2, by omega⟩
+
+theorem scanLoop_stop (scan : MScan) (f : Nat) (d : Bytes) (pos : Nat) (h : scan d = none) :
+    scanLoop scan (f + 1) d pos = pos := by
+  simp only [scanLoop, h]; split <;> rfl
+
+theorem chunkLoop_eq (z : ZScan) (hz : ZLaws z) (c : Nat) (hc : 1 ≤ c) (data : Bytes) (good pos : Nat) :
+    ∀ fuel, good ≤ pos → pos ≤ data.length →
+    (good < pos → z ((data.drop good).take (pos - good)) = .more) →
+    data.length - good < fuel →
+    chunkLoop z c data good pos = scanLoop (toMScan z) fuel (data.drop good) good := by
+  fun_induction chunkLoop z c data good pos with
+  | case1 good pos chunk hch =>
+    intro fuel hgp hpl hinv hf
+    obtain ⟨f, rfl⟩ : ∃ f, fuel = f + 1 := ⟨fuel - 1, by omega⟩
+    have hpos : pos = data.length := by
+      have h0 : chunk.length = 0 := by
+        have : chunk = [] := List.isEmpty_iff.mp hch
+        rw [this]; rfl
+      have h1 : chunk.length = min c (data.length - pos) := by
+        show ((data.drop pos).take c).length = _
+        rw [List.length_take, List.length_drop]
+      omega
+    by_cases hg : good < pos
+    · have h2 : (data.drop good).take (pos - good) = data.drop good :=
+        List.take_of_length_le (by rw [List.length_drop]; omega)
+      have h3 := hinv hg
+      rw [h2] at h3
+      exact (scanLoop_stop _ f _ good (toMScan_more h3)).symm
+    · have : data.drop good = [] := List.drop_eq_nil_of_le (by omega)
+      rw [this]; simp [scanLoop]
+  | case2 good pos chunk hch tell fed hzf =>
+    intro fuel hgp hpl hinv hf
+    obtain ⟨f, rfl⟩ : ∃ f, fuel = f + 1 := ⟨fuel - 1, by omega⟩
+    have hcf := chunk_facts c data pos hch
+    symm; apply scanLoop_stop
+    cases hzd : z (data.drop good) with
+    | eof p n =>
+      rcases hz.prefix_feed hzd (tell - good) with h | h
+      · rw [show (data.drop good).take (tell - good) = fed from rfl, hzf] at h; cases h
+      · rw [show (data.drop good).take (tell - good) = fed from rfl, hzf] at h; cases h
+    | more => simp [toMScan, hzd]
+    | error => simp [toMScan, hzd]
+  | case3 good pos chunk hch tell fed hzf ih =>
+    intro fuel hgp hpl hinv hf
+    have hcf := chunk_facts c data pos hch
+    exact ih fuel (by show good ≤ pos + chunk.length; omega) hcf.2 (fun _ => hzf) hf
+  | case4 good pos chunk hch tell fed p n hzf unused good' hg ih =>
+    intro fuel hgp hpl hinv hf
+    obtain ⟨f, rfl⟩ : ∃ f, fuel = f + 1 := ⟨fuel - 1, by omega⟩
+    have hcf := chunk_facts c data pos hch
+    have htell : good ≤ tell := by show good ≤ pos + chunk.length; omega
+    obtain ⟨hn0, hnt, hg', hzd⟩ := hz.eof_step data good tell p n hcf.2 htell hzf
+    have hg'' : good' = good + n := hg'
+    have hne : (data.drop good).isEmpty = false := by
+      have : 0 < (data.drop good).length := by
+        rw [List.length_drop]; have : tell ≤ data.length := hcf.2; omega
+      cases hd : data.drop good with
+      | nil => rw [hd] at this; simp at this
+      | cons _ _ => rfl
+    rw [scanLoop, hne, toMScan_eof hzd]
+    simp only [Bool.false_eq_true, if_false, show n ≠ 0 by omega, List.drop_drop]
+    rw [hg'']
+    have := ih f (Nat.le_refl _) (by rw [hg'']; have : tell ≤ data.length := hcf.2; omega) (fun h => absurd h (Nat.lt_irrefl _))
+      (by rw [hg'']; omega)
+    rw [hg''] at this
+    rw [this]
+  | case5 good pos chunk hch tell fed p n hzf unused good' hg =>
+    intro fuel hgp hpl hinv hf
+    exfalso
+    have hcf := chunk_facts c data pos hch
+    have htell : good ≤ tell := by show good ≤ pos + chunk.length; omega
+    obtain ⟨hn0, hnt, hg', hzd⟩ := hz.eof_step data good tell p n hcf.2 htell hzf
+    have hg'' : good' = good + n := hg'
+    apply hg; rw [hg'']; omega
+
+theorem chunk_scan_eq_member_scan' (z : ZScan) (hz : ZLaws z) (c : Nat) (hc : 1 ≤ c) (data : Bytes) :
+    chunkScan z c data = memberScan (toMScan z) data := by
+  unfold chunkScan memberScan
+  have := chunkLoop_eq z hz c hc data 0 0 (data.length + 1) (Nat.le_refl _) (Nat.zero_le _) (fun h => absurd h (Nat.lt_irrefl _)) (by omega)
+  simpa using this
+
+theorem chunk_zero' (z : ZScan) (data : Bytes) : chunkScan z 0 data = 0 := by
+  unfold chunkScan; rw [chunkLoop]; simp
+
+theorem tableScan_some {tbl : List Member} {data p : Bytes} {n : Nat} (h : tableScan tbl data = some (p, n)) :
+    ∃ m ∈ tbl, m.bytes <+: data ∧ p = m.payload ∧ n = m.bytes.length := by
+  unfold tableScan at h
+  cases hf : tbl.find? (fun m => m.bytes.isPrefixOf data) with
+  | none => simp [hf] at h
+  | some m =>
+    simp [hf] at h
+    refine ⟨m, List.mem_of_find?_eq_some hf, ?_, h.1.symm, h.2.symm⟩
+    have := List.find?_some hf
+    exact List.isPrefixOf_iff_prefix.mp this
+
+theorem tableZ_eof {tbl : List Member} {b p : Bytes} {n : Nat} (hb : tableZ tbl b = .eof p n) :
+    tableScan tbl b = some (p, n) := by
+  unfold tableZ at hb
+  cases hs : tableScan tbl b with
+  | none => rw [hs] at hb; simp only at hb; split at hb <;> cases hb
+  | some pn => rw [hs] at hb; obtain ⟨p', n'⟩ := pn; simp only at hb; cases hb; rfl
+
+theorem tableZ_laws' (tbl : List Member) (h : memberTableOK tbl = true) : ZLaws (tableZ tbl) := by
+  have hl := tableScan_laws tbl h
+  refine ⟨?_, ?_, ?_⟩
+  · intro b p n hb
+    obtain ⟨m, hm, hpre, rfl, rfl⟩ := tableScan_some (tableZ_eof hb)
+    exact ⟨List.length_pos_iff.mpr (hl.ne m hm), hpre.length_le⟩
+  · intro b p n hb rest
+    obtain ⟨m, hm, hpre, rfl, rfl⟩ := tableScan_some (tableZ_eof hb)
+    have : b.take m.bytes.length = m.bytes := by obtain ⟨t, rfl⟩ := hpre; simp
+    rw [this]; unfold tableZ; rw [hl.complete m hm rest]
+  · intro b p n hb k hk
+    obtain ⟨m, hm, hpre, rfl, rfl⟩ := tableScan_some (tableZ_eof hb)
+    have e : b.take k = m.bytes.take k := by
+      obtain ⟨t, rfl⟩ := hpre; rw [List.take_append_of_le_length (by omega)]
+    have hne : m.bytes.take k ≠ m.bytes := by
+      intro e2; have := congrArg List.length e2; simp at this; omega
+    unfold tableZ
+    rw [e, hl.torn m hm _ (List.take_prefix _ _) hne]
+    have : tbl.any (fun m' => (m.bytes.take k).isPrefixOf m'.bytes) = true := by
+      simp only [List.any_eq_true]; exact ⟨m, hm, List.isPrefixOf_iff_prefix.mpr (List.take_prefix _ _)⟩
+    simp [this]
+
+theorem toMScan_tableZ' (tbl : List Member) : toMScan (tableZ tbl) = tableScan tbl := by
+  funext b; unfold toMScan tableZ
+  cases hs : tableScan tbl b with
+  | none =>
+    by_cases ha : (tbl.any fun m => List.isPrefixOf b m.bytes) = true <;> simp [ha]
+  | some pn => rfl
+
+/-- the scan as written, on what a killed run leaves: complete members ++ a torn one -/
+theorem chunk_scan_spec' (z : ZScan) (hz : ZLaws z) (all : List Member) (hl : MLaws (toMScan z) all) (c : Nat) (hc : 1 ≤ c)
+    (ms : List Member) (hms : ∀ m ∈ ms, m ∈ all) (q : Bytes) (hq : q = [] ∨ ∃ m ∈ all, q <+: m.bytes ∧ q ≠ m.bytes) :
+    chunkScan z c (flatM ms ++ q) = (flatM ms).length ∧ (flatM ms ++ q).take (chunkScan z c (flatM ms ++ q)) = flatM ms := by
+  have h1 := chunk_scan_eq_member_scan' z hz c hc (flatM ms ++ q)
+  have h2 := memberScan_spec' (toMScan z) all hl ms hms q hq
+  rw [h1, h2.1]; simp
+
+/-! ### the shape test -/
+
+theorem exp_rec_unique (w : World) (hw : w.OK) {r : Rec} (hr : r ∈ w.universe) (hk : r.key = Key.exp) : r = w.exp := by
+  have hT := makeTasks_nodup' w.triples hw.triples_nodup
+  have hU := universe_keys_nodup w hw hT
+  have he : w.exp ∈ w.universe := (mem_universe_iff w w.exp).mpr (Or.inr (Or.inl rfl))
+  exact eq_of_key_eq hU hr he (by rw [hk, hw.exp_key])
+
+theorem restoredShape_own (w : World) (hw : w.OK) (shapeOf : Rec → Option Nat × Option Nat) (K : List Rec)
+    (hK : ∀ r ∈ K, r ∈ w.universe) :
+    restoredShape shapeOf K = shapeOf w.exp ∨ restoredShape shapeOf K = (none, none) := by
+  unfold restoredShape
+  cases hl : (K.filter (fun r => decide (r.key = Key.exp))).getLast? with
+  | none => right; rfl
+  | some r =>
+    left
+    have hm : r ∈ K.filter (fun r => decide (r.key = Key.exp)) := List.mem_of_getLast? hl
+    have := List.mem_filter.mp hm
+    have hk : r.key = Key.exp := by simpa using this.2
+    simp only [exp_rec_unique w hw (hK r this.1) hk]
+
+theorem no_mismatch_own' (w : World) (hw : w.OK) (shapeOf : Rec → Option Nat × Option Nat)
+    (hs : shapeOf w.exp = (some (givenShape w.triples).1, some (givenShape w.triples).2))
+    (K : List Rec) (hK : ∀ r ∈ K, r ∈ w.universe) :
+    shapeMismatch shapeOf (givenShape w.triples) K = false := by
+  unfold shapeMismatch
+  rcases restoredShape_own w hw shapeOf K hK with h | h
+  · rw [h, hs]; simp
+  · rw [h]; simp
+
+theorem mismatch_raises' (shapeOf : Rec → Option Nat × Option Nat) (given : Nat × Nat) (K : List Rec) (r : Rec)
+    (hr : (K.filter (fun r => decide (r.key = Key.exp))).getLast? = some r) (nl ne : Nat)
+    (hs : shapeOf r = (some nl, some ne)) (hne : nl ≠ given.1 ∨ ne ≠ given.2) :
+    shapeMismatch shapeOf given K = true := by
+  have hK : K.isEmpty = false := by
+    cases K with
+    | nil => simp at hr
+    | cons _ _ => rfl
+  have hrs : restoredShape shapeOf K = (some nl, some ne) := by
+    unfold restoredShape; rw [hr]; exact hs
+  unfold shapeMismatch
+  rw [hrs, hK]
+  rcases hne with h | h <;> simp [h]
+
+theorem resume_never_mismatch' (w : World) (hw : w.OK) (shapeOf : Rec → Option Nat × Option Nat)
+    (hs : shapeOf w.exp = (some (givenShape w.triples).1, some (givenShape w.triples).2))
+    (L : List Rec) (hL : ValidLog w L) (k : Nat) :
+    ∃ o, resume Flags.fixed w (some (cut w L k)) = some o ∧
+      resumeChecked Flags.fixed w shapeOf (givenShape w.triples) (some (cut w L k)) = some (false, o) := by
+  obtain ⟨j, p, K, h1, h2, hrest, hKL, hjK⟩ := restore_fixed Flags.fixed rfl w hw L hL k
+  have hKU : ∀ r ∈ K, r ∈ w.universe := fun r hr => hL.2.1 r (hKL.subset hr)
+  have hm := no_mismatch_own' w hw shapeOf hs K hKU
+  refine ⟨finish w.c ⟨serialize (K.map w.c.enc), K⟩ (makeTasks Flags.fixed.finishedFix K w.triples)
+    (preamble Flags.fixed w.ver w.exp K) ((makeTasks Flags.fixed.finishedFix K w.triples).filterMap w.out), ?_, ?_⟩
+  · simp only [resume, cut, logFile, hrest]
+  · simp only [resumeChecked, cut, logFile, hrest, hm]
+    rfl
+
+/-! ### Phase 4: `Result.from_file` on a cut file without resuming -/
+
+theorem lines_cut_tail (c : Codec) (U A : List Rec) (hc : c.Lawful U) (hA : ∀ r ∈ A, r ∈ U) (p : Bytes)
+    (hNo : NoNL p) (hne : p ≠ []) :
+    lines (serialize (A.map c.enc) ++ p) = A.map c.enc ++ [p] := by
+  have hsplit : splitNL (serialize (A.map c.enc) ++ p) = (A.map c.enc, p) := by
+    rw [splitNL_serialize_append _ _ p, splitNL_noNL hNo]
+    · simp
+    · intro r hr
+      obtain ⟨x, hx, rfl⟩ := List.mem_map.mp hr
+      exact hc.noNL x (hA x hx)
+  unfold lines; rw [hsplit]
+  apply List.filter_eq_self.mpr
+  intro l hl
+  rcases List.mem_append.mp hl with h | h
+  · obtain ⟨x, hx, rfl⟩ := List.mem_map.mp h
+    have := hc.ne x (hA x hx)
+    cases hx' : c.enc x with
+    | nil => exact absurd hx' this
+    | cons _ _ => rfl
+  · have : l = p := by simpa using h
+    subst this
+    cases l with
+    | nil => exact absurd rfl hne
+    | cons _ _ => rfl
+
+theorem decodeLines_append_none (c : Codec) (A : List Bytes) (p : Bytes) (h : c.dec p = none) :
+    decodeLines c (A ++ [p]) = none := by
+  induction A with
+  | nil => simp [decodeLines, h]
+  | cons a A ih => simp only [List.cons_append, decodeLines, ih]; cases c.dec a <;> rfl
+
+/-- `Result.from_file` (plain) on a file that ends inside a record raises -/
+theorem from_file_torn' (w : World) (hw : w.OK) (A : List Rec) (hA : ∀ r ∈ A, r ∈ w.universe) (r : Rec)
+    (hr : r ∈ w.universe) (p : Bytes) (hp : p <+: w.c.enc r) (hne : p ≠ []) (hpr : p ≠ w.c.enc r) :
+    decodeAll w.c (logFile w A ++ p) = none := by
+  have hNo := NoNL_prefix (hw.codec.noNL r hr) hp
+  unfold decodeAll logFile
+  rw [lines_cut_tail w.c _ A hw.codec hA p hNo hne, decodeLines_append_none _ _ _ (hw.codec.torn r hr p hp hpr)]
+
+/-- … and on a file whose last record is complete but lacks its newline it reads every record -/
+theorem from_file_unterminated' (w : World) (hw : w.OK) (A : List Rec) (hA : ∀ r ∈ A, r ∈ w.universe) (r : Rec)
+    (hr : r ∈ w.universe) (hver : ∀ x, (A ++ [r]).head? = some x → x.key = Key.ver) :
+    decodeAll w.c (logFile w A ++ w.c.enc r) = some (A ++ [r]) := by
+  have hl := lines_cut_tail w.c _ A hw.codec hA (w.c.enc r) (hw.codec.noNL r hr) (hw.codec.ne r hr)
+  have hAr : ∀ x ∈ A ++ [r], x ∈ w.universe := by
+    intro x hx; rcases List.mem_append.mp hx with h | h
+    · exact hA x h
+    · have : x = r := by simpa using h
+      subst this; exact hr
+  have hd := decodeLines_map_enc w.c (A ++ [r]) (fun x hx => hw.codec.dec_enc x (hAr x hx))
+  have e : A.map w.c.enc ++ [w.c.enc r] = (A ++ [r]).map w.c.enc := by simp
+  unfold decodeAll logFile
+  rw [hl, e, hd]
+  cases hh : A ++ [r] with
+  | nil => simp at hh
+  | cons x xs => simp [hver x (by rw [hh]; rfl)]
+
+/-! ### Phase 4: ChunkTasks / ProcessTasks order is a permutation -/
+
+theorem insertOrd_perm (lt : Task → Task → Bool) (t : Task) (l : List Task) : (insertOrd lt t l).Perm (t :: l) := by
+  induction l with
+  | nil => exact List.Perm.refl _
+  | cons u us ih =>
+    simp only [insertOrd]
+    split
+    · exact ((List.Perm.cons u ih).trans (List.Perm.swap t u us))
+    · exact List.Perm.refl _
+
+theorem sortOrd_perm (lt : Task → Task → Bool) (l : List Task) : (sortOrd lt l).Perm l := by
+  induction l with
+  | nil => exact List.Perm.refl _
+  | cons t ts ih => exact (insertOrd_perm lt t _).trans (List.Perm.cons t ih)
+
+theorem insertGrp_perm (key : List Task → Nat) (g : List Task) (l : List (List Task)) : (insertGrp key g l).Perm (g :: l) := by
+  induction l with
+  | nil => exact List.Perm.refl _
+  | cons u us ih =>
+    simp only [insertGrp]
+    split
+    · exact ((List.Perm.cons u ih).trans (List.Perm.swap g u us))
+    · exact List.Perm.refl _
+
+theorem sortGrp_perm (key : List Task → Nat) (l : List (List Task)) : (sortGrp key l).Perm l := by
+  induction l with
+  | nil => exact List.Perm.refl _
+  | cons t ts ih => exact (insertGrp_perm key t _).trans (List.Perm.cons t ih)
+
+theorem groupsOf_flatten (ck : Task → Nat) (l : List Task) : (groupsOf ck l).flatten.Perm l := by
+  fun_induction groupsOf ck l with
+  | case1 => exact List.Perm.refl _
+  | case2 t ts ih =>
+    simp only [List.flatten_cons]
+    have h1 : (t :: ts).filter (fun u => !(ck u == ck t)) = dropGroup ck (ck t) ts := by
+      simp [List.filter_cons, dropGroup]
+    have h2 := List.filter_append_perm (fun u => ck u == ck t) (t :: ts)
+    rw [h1] at h2
+    exact (List.Perm.append_left _ ih).trans h2
+
+theorem batches_go_flatten (m : Nat) (hm : m ≠ 0) (l : List Task) (f : Nat) (hf : l.length ≤ f) :
+    (batches.go m l f).flatten = l := by
+  induction f generalizing l with
+  | zero =>
+    have : l = [] := List.eq_nil_of_length_eq_zero (by omega)
+    subst this; rfl
+  | succ f ih =>
+    simp only [batches.go]
+    cases l with
+    | nil => rfl
+    | cons a as =>
+      simp only [List.isEmpty_cons, Bool.false_eq_true, if_false, List.flatten_cons]
+      rw [ih _ (by simp only [List.length_drop, List.length_cons] at hf ⊢; omega), List.take_append_drop]
+
+theorem batches_flatten (m : Nat) (l : List Task) : (batches m l).flatten = l := by
+  unfold batches
+  by_cases hm : m = 0
+  · simp only [hm, if_true]
+    cases l <;> simp
+  · simp only [hm, if_false]
+    exact batches_go_flatten m hm l _ (Nat.le_refl _)
+
+theorem flatMap_singleton_flatten (l : List Task) : (l.map (fun t => [t])).flatten = l := by
+  induction l with
+  | nil => rfl
+  | cons a as ih => simp [ih]
+
+theorem chunkTasks_flatten_perm (chunkOf : Nat → Option Nat) (m : Nat) (tasks : List Task) :
+    (chunkTasks chunkOf m tasks).flatten.Perm tasks := by
+  unfold chunkTasks
+  simp only [List.flatten_append, flatMap_singleton_flatten]
+  have hg : ∀ gs : List (List Task),
+      (gs.flatMap (fun g => batches m (sortOrd (fun a b => ordLt a.ord b.ord) g))).flatten.Perm gs.flatten := by
+    intro gs
+    induction gs with
+    | nil => exact List.Perm.refl _
+    | cons g gs ih =>
+      simp only [List.flatMap_cons, List.flatten_append, List.flatten_cons, batches_flatten]
+      exact List.Perm.append (sortOrd_perm _ g) ih
+  have hsome : ∀ (f : Task → Option Nat), (fun t => (f t).isSome) = (fun t => !(f t).isNone) := by
+    intro f; funext t; cases f t <;> rfl
+  have h3 := (hg _).trans (((sortGrp_perm minEnv (groupsOf (fun t => (t.envId.bind chunkOf).getD 0)
+    ((tasks.filter (fun t => t.envId.isSome)).filter (fun t => (t.envId.bind chunkOf).isSome)))).flatten).trans (groupsOf_flatten _ _))
+  have h4 := List.filter_append_perm (fun t => (t.envId.bind chunkOf).isNone) (tasks.filter (fun t => t.envId.isSome))
+  rw [← hsome (fun t => t.envId.bind chunkOf)] at h4
+  have h5 := List.filter_append_perm (fun t => t.envId.isNone) tasks
+  rw [← hsome (fun t => t.envId)] at h5
+  exact (List.Perm.append_left _ ((List.Perm.append_left _ h3).trans h4)).trans h5
+
+theorem processOrder_perm (c : List Task) : (processOrder c).Perm c :=
+  (sortOrd_perm _ _).trans (List.reverse_perm c)
+
+theorem runOrder_perm' (chunkOf : Nat → Option Nat) (m : Nat) (tasks : List Task) : (runOrder chunkOf m tasks).Perm tasks := by
+  unfold runOrder
+  have : ∀ cs : List (List Task), (cs.flatMap processOrder).Perm cs.flatten := by
+    intro cs
+    induction cs with
+    | nil => exact List.Perm.refl _
+    | cons c cs ih => simp only [List.flatMap_cons, List.flatten_cons]; exact List.Perm.append (processOrder_perm c) ih
+  exact (this _).trans (chunkTasks_flatten_perm chunkOf m tasks)
+
+theorem resume_correct_run_order' (w : World) (hw : w.OK) (L : List Rec) (hL : ValidLog w L) (k : Nat)
+    (chunkOf : Nat → Option Nat) (m : Nat) :
+    ∃ K, restore Flags.fixed w.c (some (cut w L k)) = some ⟨logFile w K, K⟩ ∧ K <+: L ∧
+        let o := finish w.c ⟨logFile w K, K⟩ (makeTasks true K w.triples) (preamble Flags.fixed w.ver w.exp K)
+          ((runOrder chunkOf m (makeTasks true K w.triples)).filterMap w.out)
+        o.file = logFile w (K ++ o.appended) ∧ o.final = some (K ++ o.appended) ∧ ValidLog w (K ++ o.appended) ∧
+        (K ++ o.appended).Perm w.universe ∧ (∀ t ∈ o.tasks, ∀ r ∈ K, r.key ≠ t.key) := by
+  obtain ⟨j, p, K, _, _, hKL, _, hrest, hall⟩ := resume_correct' w hw L hL k
+  exact ⟨K, hrest, hKL, hall _ ((runOrder_perm' chunkOf m _).filterMap w.out)⟩
+
+/-! ### Phase 4: universal newlines -/
+
+theorem univ_of_noCR (f : Bytes) (h : CR ∉ f) : univ f = f := by
+  unfold univ
+  induction f with
+  | nil => rfl
+  | cons b bs ih =>
+    have hb : b ≠ CR := fun e => h (by simp [e])
+    have hbs : CR ∉ bs := fun m => h (List.mem_cons_of_mem _ m)
+    simp [univAux, hb, ih hbs]
+
+theorem decodeAllU_eq' (c : Codec) (f : Bytes) (h : CR ∉ f) : decodeAllU c f = decodeAll c f := by
+  unfold decodeAllU linesU
+  rw [univ_of_noCR f h]
+  rfl
+
+theorem noCR_serialize (rs : List Bytes) (h : ∀ r ∈ rs, CR ∉ r) : CR ∉ serialize rs := by
+  induction rs with
+  | nil => simp [serialize]
+  | cons r rs ih =>
+    simp only [serialize, List.mem_append, List.mem_cons, not_or]
+    exact ⟨h r (by simp), by decide, ih (fun x hx => h x (List.mem_cons_of_mem _ hx))⟩
+
+/-- every cut of a log whose record texts hold no raw `\r` is read the same with and without universal newlines -/
+theorem universal_newlines_irrelevant' (w : World) (L : List Rec) (h : ∀ r ∈ L, CR ∉ w.c.enc r) (k : Nat) :
+    decodeAllU w.c (cut w L k) = decodeAll w.c (cut w L k) := by
+  apply decodeAllU_eq'
+  intro hm
+  have : CR ∈ logFile w L := List.mem_of_mem_take hm
+  exact noCR_serialize (L.map w.c.enc) (by
+    intro r hr; obtain ⟨x, hx, rfl⟩ := List.mem_map.mp hr; exact h x hx) this
+
+/-- a record text with a raw `\r` (which `json.dumps` never produces) IS split in two: the hypothesis is necessary -/
+theorem cr_counterexample' :
+    let c := tableCodec [(⟨.ver, 0, 0⟩, [91, 13, 93])]
+    decodeAll c (serialize [[91, 13, 93]]) = some [⟨.ver, 0, 0⟩] ∧ decodeAllU c (serialize [[91, 13, 93]]) = none := by
+  decide
+
 end Coba.C02
